@@ -294,6 +294,9 @@ func ruleBasketInvariant(c *Ctx, m *Model) {
 			}
 		}
 	}
+	// the registered closure hands the invariant a map keyed by basket id
+	nArg := ruleMapArgDims(c, m, "C05.INV", func(f *ssa.Function) bool { return f == fn })
+	c.Min("callers of SupplyInvariant whose map argument is resolved", 1, nArg)
 	// summation keys sorted: C10.D1 covers map order; balances summed with exact Add
 	cb := findFn(m, "x/ecocredit/v3/basket/keeper", "Keeper.computeBasketBalances")
 	if cb != nil {
